@@ -321,3 +321,36 @@ func TestManifestBuilder_MultipleValues(t *testing.T) {
 		t.Fatalf("duplicate env should keep last value, got %+v", data.Env.Vars)
 	}
 }
+
+func TestDigestFiles_SameSizeAndMtime(t *testing.T) {
+	td := t.TempDir()
+	file := filepath.Join(td, "a.go")
+	if err := os.WriteFile(file, []byte("package a // 1"), 0644); err != nil {
+		t.Fatal(err)
+	}
+	info, err := os.Stat(file)
+	if err != nil {
+		t.Fatal(err)
+	}
+	before, err := digestFiles([]string{file})
+	if err != nil {
+		t.Fatalf("digestFiles: %v", err)
+	}
+	// Same size, same mtime (cp -p, rsync -t, tar x), different content.
+	if err := os.WriteFile(file, []byte("package a // 2"), 0644); err != nil {
+		t.Fatal(err)
+	}
+	if err := os.Chtimes(file, info.ModTime(), info.ModTime()); err != nil {
+		t.Fatal(err)
+	}
+	after, err := digestFiles([]string{file})
+	if err != nil {
+		t.Fatalf("digestFiles: %v", err)
+	}
+	if before[0].Size != after[0].Size || before[0].ModTime != after[0].ModTime {
+		t.Fatalf("test setup: size/mtime changed: %+v %+v", before[0], after[0])
+	}
+	if reflect.DeepEqual(before, after) {
+		t.Errorf("digest ignores a content change that keeps size and mtime: %+v", after)
+	}
+}
